@@ -34,5 +34,6 @@ if __name__ == "__main__":
             for k, v in o.items():
                 if v[0] > tot.get(k, (-1,))[0]:
                     tot[k] = v
-    for k in sorted(tot, key=lambda k: -tot[k][0])[:40]:
+    flt = sys.argv[3] if len(sys.argv) > 3 else ""
+    for k in [k_ for k_ in sorted(tot, key=lambda k: -tot[k][0]) if flt in k_[0]][:40]:
         print(k, "%.3g" % tot[k][0], tot[k][1])
